@@ -199,7 +199,7 @@ const PROBE_FES: [usize; 3] = [2, 0, 7];
 
 fn probe(dec: &mut FrameDecoder, w: &World, p: usize, fe_i: usize) -> String {
     let o = fe::run_on(dec, PROBE_FES[fe_i], &w.probes[p].bytes, 1 << 16);
-    format!("{:?}|{}|{:?}|{}|{}|{:?}|{:?}|{:x}", o.end, o.delivered.len(), o.consumed, o.finished, o.content_size, o.checksum_from_data, o.checksum_calculated, zmodel::xxh::xxh64(&o.delivered))
+    format!("{:?}|{}|{:?}|{}|{}|{:?}|{:?}|blocks {}|{:x}", o.end, o.delivered.len(), o.consumed, o.finished, o.content_size, o.checksum_from_data, o.checksum_calculated, o.blocks, zmodel::xxh::xxh64(&o.delivered))
 }
 
 pub fn main(tier: Tier, replay: Option<Value>) -> i32 {
@@ -286,7 +286,7 @@ pub fn main(tier: Tier, replay: Option<Value>) -> i32 {
     run.set("transitions", run.get("evaluations"));
     run.set("traces_validated_against_impl", run.get("evaluations"));
     run.set("exhaustive", true);
-    run.set("rule", "states = decoders after every history of <= 2 episodes (thorough: also 3 episodes over the heavy progress points) over (16 setter frames x 5 progress points: header only, one block, all blocks undrained, drained, whole multi-frame call) with 0/1/2 dictionaries registered; setter frames each put one kind of state into the decoder (Huffman tables of both description kinds, FSE / RLE tables per table, offset history, a 64 KiB window of 0xAA, dictionary tables and content, checksum, block counter, single segment) or fail / are rejected at a chosen point; transitions = 28 probes x 3 front ends, including frames that are INVALID on a fresh decoder and become decodable only if that state leaked; oracle = the probe's complete outcome (result and error text, bytes, both checksums, consumed count, content size) equals the outcome on a fresh decoder");
+    run.set("rule", "states = decoders after every history of <= 2 episodes (thorough: also 3 episodes over the heavy progress points) over (16 setter frames x 5 progress points: header only, one block, all blocks undrained, drained, whole multi-frame call) with 0/1/2 dictionaries registered; setter frames each put one kind of state into the decoder (Huffman tables of both description kinds, FSE / RLE tables per table, offset history, a 64 KiB window of 0xAA, dictionary tables and content, checksum, block counter, single segment) or fail / are rejected at a chosen point; transitions = 28 probes x 3 front ends, including frames that are INVALID on a fresh decoder and become decodable only if that state leaked; oracle = the probe's complete outcome (result and error text, bytes, both checksums, consumed count, blocks_decoded(), content size) equals the outcome on a fresh decoder");
     run.sample(json!({"history": ["[huffman table (direct) + RLE symbols for LL/OF/ML] AllUndrained"], "probe": "Repeat mode for table OF in the first block (needs a leaked RLE table)", "expected": "same error as on a fresh decoder"}));
     run.assume("the state after a failed reset is not compared, only the outcome of the next frame");
     run.finish()
